@@ -20,6 +20,7 @@ def handleSexp (line : String) : String :=
   | some (.atom "process" :: args) => Driver.cmdProcess args
   | some (.atom "load" :: args) => Driver.cmdLoad args
   | some (.atom "loaddoc" :: args) => Driver.cmdLoadDoc args
+  | some (.atom "reqops" :: args) => Driver.cmdReqOps args
   | some _ => "bad-op"
   | none => "bad-syntax"
 
